@@ -86,8 +86,51 @@ ParamType(m, i) == IF m.va /\ i = Len(m.ps) THEN Slice(m.ps[i].t) ELSE m.ps[i].t
 \*   LA = FX.T, LE int, LGI[T any] interface{Get() T; Put(v T)}, LC constraint, and adversarially named ones
 \* Client = impl.Client (impl under the package's internal/ directory: not importable from the destination);
 \* Token = token (exported alias of an unexported type).  Nameable THROUGH the alias, hence inside the guarantee.
-AliasNames == {"A", "LA", "Client", "Token"}
+\* AnyA = any (every foreign package), LAnyA = any (SRC): ALIASES of the empty interface -- identical to it.
+\* EI interface{} (every foreign package), LEI interface{} (SRC): DEFINED types whose underlying type is the empty interface.
+AliasNames == {"A", "LA", "Client", "Token", "AnyA", "LAnyA"}
 IsAliasTerm(t) == t.k = "named" /\ t.n \in AliasNames
+EmptyIfaceAliasNames   == {"AnyA", "LAnyA"}
+EmptyIfaceDefinedNames == {"EI", "LEI"}
+
+(* ------------------------------------------------------------------------ *)
+(* CONTRACT (Go spec, identity / assignability): which element types E of a  *)
+(* variadic parameter `xs ...E` make the slice xs usable AS IT IS where a    *)
+(* []interface{} is wanted (`f(xs...)` with f(...interface{}),               *)
+(* `append([]interface{}, xs...)`): only those IDENTICAL to the empty        *)
+(* interface -- `any`, `interface{}`, an alias of them.  A DEFINED type whose *)
+(* underlying type is the empty interface and a type parameter (whatever its *)
+(* constraint) are different types: []E is not assignable to []interface{},  *)
+(* the elements have to be copied one by one.  Any generated code that       *)
+(* forwards variadic arguments (testify unroll-variadic, matryer call        *)
+(* recording) sits on one side of this line per element class.               *)
+IsEmptyIfaceLit(t) == t.k = "iface" /\ t.ms = << >> /\ t.es = << >>
+IdenticalToEmptyIface(t) == \/ (t.k = "basic" /\ t.n = "any")
+                            \/ IsEmptyIfaceLit(t)
+                            \/ (t.k = "named" /\ t.n \in EmptyIfaceAliasNames)
+UnderlyingIsEmptyIface(t) == IdenticalToEmptyIface(t) \/ (t.k = "named" /\ t.n \in EmptyIfaceDefinedNames)
+SliceUsableAsEmptyIfaceSlice(t) == IdenticalToEmptyIface(t)
+\* class of a variadic element type (tpc: constraint of the type parameter when the element is one, else << >>)
+NamedIfaceNames == {"I", "LI", "GI", "LGI", "RW", "TI", "Reader", "Writer", "ReadWriter", "Context", "Stringer", "Locker"}
+TpConstraintClass(cn) == IF cn.k = "basic" /\ cn.n = "any" THEN "any"
+                         ELSE IF cn.k = "basic" /\ cn.n = "comparable" THEN "comparable"
+                         ELSE IF cn.k = "union" \/ (cn.k = "basic") THEN "union"
+                         ELSE IF cn.k = "named" THEN "named" ELSE "iface"
+VariadicElemClass(t, tpc) ==
+  CASE t.k = "basic" /\ t.n = "any"   -> "any"
+    [] IsEmptyIfaceLit(t)               -> "empty-iface-lit"
+    [] t.k = "named" /\ t.n \in EmptyIfaceAliasNames   -> "alias-of-any"
+    [] t.k = "named" /\ t.n \in EmptyIfaceDefinedNames -> "defined-empty-iface"
+    [] t.k = "basic" /\ t.n = "error"  -> "nonempty-iface"
+    [] t.k \in {"named", "inst"} /\ t.n \in NamedIfaceNames -> "nonempty-iface"
+    [] t.k = "iface"                    -> "nonempty-iface"
+    [] t.k = "tp"                       -> "tparam-" \o TpConstraintClass(tpc)
+    [] t.k = "basic"                    -> "basic"
+    [] t.k = "unsafe"                   -> "basic"
+    [] t.k = "named" /\ t.n \in AliasNames -> "alias"
+    [] t.k = "named"                    -> "named"
+    [] t.k = "inst"                     -> "inst"
+    [] OTHER                            -> t.k            \* ptr, slice, array, chan, map, func, struct
 
 (* ------------------------------------------------------------------------ *)
 (* CONTRACT: what a rendered type refers to.                                *)
@@ -267,6 +310,8 @@ NamedConstraint(n) ==
     [] n = "Number"   -> Iface(<< >>, <<Union(<<B("int"), B("int64")>>)>>)
     [] n = "LStr"     -> Iface(<< >>, <<Union(<<B("string")>>)>>)
     [] n = "Stringer" -> Iface(<<Meth("String", << >>, <<V("", B("string"))>>, FALSE)>>, << >>)
+    \* the empty interface under another name (alias or defined type) used as a constraint: every type satisfies it
+    [] n \in EmptyIfaceAliasNames \cup EmptyIfaceDefinedNames -> Iface(<< >>, << >>)
     \* sealed constraints: an exported and an UNEXPORTED method -- only types of the declaring package satisfy them
     [] n \in {"LSealed", "Sealed"} -> Iface(<<Meth("Pos", << >>, <<V("", B("int"))>>, FALSE), Meth("isNode", << >>, << >>, FALSE)>>, << >>)
 \* does type t satisfy constraint (element) cn?  A constraint with several elements is the INTERSECTION of its elements.
